@@ -294,7 +294,21 @@ def collect() -> dict:
 
     for p in payloads:
         p["fmts"] = resolve(p["name"], ())
-    return {"registry": registry, "origin": origin, "overlays": overlays, "payloads": payloads}
+
+    # --- payload_dataclass.type_map: annotation -> format name ----------------------------------------------------
+    from ipv8.messaging import payload_dataclass as PD
+    probes = {"bool": bool, "int": int, "float": float, "bytes": bytes, "str": str,
+              "list[bool]": list[bool], "list[int]": list[int], "list[float]": list[float]}
+    type_map = {}
+    for key, t in probes.items():
+        try:
+            f = PD.type_map(t)
+        except Exception as e:
+            raise TranslatorError(f"payload_dataclass.type_map({key}) raises {type(e).__name__}: {e}") from e
+        if not isinstance(f, str):
+            raise TranslatorError(f"payload_dataclass.type_map({key}) = {f!r} is not a format name")
+        type_map[key] = f
+    return {"registry": registry, "origin": origin, "overlays": overlays, "payloads": payloads, "type_map": type_map}
 
 
 def fmtlist_lean(items: list[str]) -> str:
@@ -355,6 +369,10 @@ def gen_lean(info: dict) -> str:
     o.append("")
     o.append("def payloads : List PayloadDef := [" + ", ".join(defs) + "]")
     o.append("")
+    o.append("/-- payload_dataclass.type_map evaluated on the live module: annotation -> format name -/")
+    o.append("def typeMap : List (String × String) := ["
+             + ", ".join(f"({lstr(k)}, {lstr(v)})" for k, v in info["type_map"].items()) + "]")
+    o.append("")
     o.append("end Ipv8.C02.Gen")
     o.append("")
     return "\n".join(o)
@@ -389,6 +407,10 @@ def gen_spec_lean(spec: dict) -> str:
     o.append("def frozenMsgIds : List (String × Option Nat) := [")
     o.append(",\n".join(f"  ({lstr(n)}, {'none' if m is None else 'some ' + str(m)})" for n, m in spec["msg_ids"]))
     o.append("]")
+    o.append("")
+    o.append("/-- payload_dataclass.type_map frozen at the pinned commit -/")
+    o.append("def frozenTypeMap : List (String × String) := ["
+             + ", ".join(f"({lstr(k)}, {lstr(v)})" for k, v in spec["dataclass_type_map"].items()) + "]")
     o.append("")
     o.append("/-- format_list / names of every shipped class, frozen at the pinned commit -/")
     o.append("def frozenLayouts : List (String × List FRef × List String) := [")
